@@ -93,9 +93,19 @@ type vhpxNodeSpec struct {
 	View      []vhpxViewSpec `json:"view"`
 }
 
+// access log configuration of every node of the cluster: it must never influence what is proxied
+type vhpxAccessLog struct {
+	Disable   bool     `json:"disable"`
+	ReqBlock  []string `json:"req_block"`
+	ReqAllow  []string `json:"req_allow"`
+	RespBlock []string `json:"resp_block"`
+	RespAllow []string `json:"resp_allow"`
+}
+
 type vhpxClusterSpec struct {
 	ID        string         `json:"id"`
 	TimeoutMs int            `json:"timeout_ms"`
+	AccessLog *vhpxAccessLog `json:"access_log"`
 	Nodes     []vhpxNodeSpec `json:"nodes"`
 	Requests  []vhpxReqSpec  `json:"requests"`
 }
@@ -629,6 +639,13 @@ func (c *vhpxCluster) run() {
 		conf := config.Default().Proxy
 		conf.Timeout = time.Duration(spec.TimeoutMs) * time.Millisecond
 		conf.AccessLog.Disable = true
+		if al := spec.AccessLog; al != nil {
+			conf.AccessLog.Disable = al.Disable
+			conf.AccessLog.RequestHeaders.BlockList = al.ReqBlock
+			conf.AccessLog.RequestHeaders.AllowList = al.ReqAllow
+			conf.AccessLog.ResponseHeaders.BlockList = al.RespBlock
+			conf.AccessLog.ResponseHeaders.AllowList = al.RespAllow
+		}
 		srv := NewServer(mgr, conf, nil, nil, nil, log.NewNopLogger())
 		srv.httpServer.Handler = &vhpxCounting{c: c, idx: i, next: srv.httpServer.Handler}
 		c.mu.Lock()
